@@ -91,7 +91,18 @@ fn process_request_obj(request: &Request, dbs: &Arc<Databases>, client: &mut Cli
             &dbs,
             &client,
             &key,
-            &|_db| remove_key(&key, _db),
+            &|_db| {
+                let respose = remove_key(&key, _db);
+                // Like set: a secondary has to tell the primary, it does not fan out itself
+                if !dbs.is_primary() {
+                    let db_name_state = _db.name.clone();
+                    send_message_to_primary(
+                        get_replicate_remove_message(db_name_state.to_string(), key.clone()),
+                        dbs,
+                    );
+                }
+                respose
+            },
             PermissionKind::Remove,
         ),
 
